@@ -412,13 +412,16 @@ func (m *MetricStorage) applyGroupOperations(group string, ops []operation.Metri
 		labels := MergeLabels(op.Labels, commonLabels)
 		if op.Action == "add" && op.Value != nil {
 			m.groupedVault.CounterAdd(group, op.Name, *op.Value, labels)
+			continue
 		}
 		//nolint:staticcheck
 		if op.Add != nil {
 			m.groupedVault.CounterAdd(group, op.Name, *op.Add, labels)
+			continue
 		}
 		if op.Action == "set" && op.Value != nil {
 			m.groupedVault.GaugeSet(group, op.Name, *op.Value, labels)
+			continue
 		}
 		//nolint:staticcheck
 		if op.Set != nil {
